@@ -307,3 +307,67 @@ def ignorable(key):
     if flag:
         return 1
     return 0
+
+
+def busy_names(glyph_sets):
+    return {name for gs in glyph_sets for name, n in gs.items() if n > 0}
+
+
+def pairs_flat(rows):
+    return [x + 1 for row in (rows, rows) for x in row]
+
+
+def cross(xs, ys):
+    return {x + y for x in xs for y in ys if y != x}
+
+
+def sub_location(loc, dflt):
+    items = dflt.items()
+    return loc.items() <= items
+
+
+def extra_keys(d, s):
+    return d.keys() - s
+
+
+def common_keys(a, b):
+    return a.keys() & b.keys()
+
+
+def same_keys(a, b):
+    return a.keys() == b.keys()
+
+
+def all_names(glyph_sets):
+    return set.union(*[set(gs.keys()) for gs in glyph_sets])
+
+
+def star_known(xs):
+    return add3(*xs)
+
+
+def build_trace(xs):
+    out = []
+    for x in xs:
+        out.append(x + 1)
+    out = [0] + out
+    return out
+
+
+def side_key(is_class, side):
+    if isinstance(side, tuple):
+        return len(side) + (1 if is_class else 0)
+    return 0
+
+
+def pair_lt(a_cls, a_side, b_cls, b_side):
+    return (a_cls, a_side) < (b_cls, b_side)
+
+
+def lex_lt(a, b):
+    return a < b
+
+
+def as_tuple(xs):
+    t = tuple(x for x in xs)
+    return t
